@@ -1569,6 +1569,10 @@ impl Server {
         .inscription_number;
 
       if let Some(delegate) = inscription.delegate() {
+        if settings.is_hidden(delegate) {
+          return Ok(PreviewUnknownHtml.into_response());
+        }
+
         inscription = index
           .get_inscription_by_id(delegate)?
           .ok_or_not_found(|| format!("delegate {inscription_id}"))?
@@ -8766,6 +8770,59 @@ next
 
     server.assert_response_regex(
       format!("/content/{inscription}"),
+      StatusCode::OK,
+      PreviewUnknownHtml.to_string(),
+    );
+  }
+
+  #[test]
+  fn hidden_inscriptions_are_not_served_through_delegating_inscriptions() {
+    let core = mockcore::builder()
+      .network(Chain::Regtest.network())
+      .build();
+
+    core.mine_blocks(2);
+
+    let txid = core.broadcast_tx(TransactionTemplate {
+      inputs: &[(1, 0, 0, inscription("text/html", "hello").to_witness())],
+      ..default()
+    });
+
+    core.mine_blocks(1);
+
+    let hidden = InscriptionId { txid, index: 0 };
+
+    let txid = core.broadcast_tx(TransactionTemplate {
+      inputs: &[(
+        2,
+        0,
+        0,
+        Inscription {
+          delegate: Some(hidden.value()),
+          ..default()
+        }
+        .to_witness(),
+      )],
+      ..default()
+    });
+
+    core.mine_blocks(1);
+
+    let delegating = InscriptionId { txid, index: 0 };
+
+    let server = TestServer::builder()
+      .core(core)
+      .config(&format!("hidden: [{hidden}]"))
+      .build();
+
+    server.assert_response_regex(
+      format!("/content/{delegating}"),
+      StatusCode::OK,
+      PreviewUnknownHtml.to_string(),
+    );
+
+    server.assert_response_regex(
+      format!("/preview/{delegating}"),
       StatusCode::OK,
       PreviewUnknownHtml.to_string(),
     );
